@@ -212,6 +212,8 @@ def what(tag, toks, d):
         (19, 192): "an edited private-key blob unmarshals to a private key whose signatures do not verify under its own GetPublic()",
         (13, 131): "an RSA key of a size that can be generated does not unmarshal / round-trip",
     }.get((k, clause))
+    if k == 15 and len(toks) > 1 and toks[1] >= 4 and clause == 151:
+        msg = "two sealed records were consumed into ONE destination value: it does not hold exactly the second record's sealed content (stale fields of the first survive)"
     if msg is None and k == 5:
         msg = "key / peer ID round trip failed (flag %s: 1 unmarshal, 2 private key, 3 determinism, 4 base58, 5 CID, 6/7 ExtractPublicKey, 8 MatchesPublicKey, 9 binary/text/JSON)" % clause
     return "%s: %s (diag %s)" % (KIND.get(k, k), msg or "property clause failed", d)
